@@ -216,8 +216,7 @@ theorem verifySI_verified {cr : Crypto} {inp : Input} {si : SignerInfo} {c : Cer
 
 /-- completeness: when the sid selects `c` and `c` verifies, the SignerInfo is reported as verified with `c` -/
 theorem verifySI_of_verifies {cr : Crypto} {inp : Input} {si : SignerInfo} {c : Cert}
-    (hf : findCert inp.certs si = some c) (hv : Verifies cr inp si c)
-    (hct : contentTypeChecked inp.maxSdk = true) : verifySI cr inp si = .verified c := by
+    (hf : findCert inp.certs si = some c) (hv : Verifies cr inp si c) : verifySI cr inp si = .verified c := by
   obtain ⟨fn, cls, hh, hcase⟩ := hv
   unfold verifySI
   simp only [hh, hf]
@@ -261,23 +260,32 @@ theorem verifySI_of_verifies {cr : Crypto} {inp : Input} {si : SignerInfo} {c : 
               · exact hnd.1 (List.mem_map.mpr ⟨x, hx, hm⟩)
           exact key (a :: as) [] hnd (by simp) hd
       simp only [hdict]
-      obtain ⟨a1, ha1, ho1, hv1⟩ := h1 hct
       obtain ⟨a2, ha2, ho2, hv2⟩ := h2
-      have g1 := dictGet_of_mem _ a1 ha1 hnd
       have g2 := dictGet_of_mem _ a2 ha2 hnd
-      rw [ho1] at g1; rw [ho2] at g2
-      unfold verifyAttrs
-      simp only [hct, if_true, g1, g2]
-      cases hvals1 : a1.values with
-      | nil => simp [hvals1] at hv1
-      | cons v1 r1 =>
-        simp only [hvals1, List.head?_cons, Option.some.injEq] at hv1
-        cases hvals2 : a2.values with
-        | nil => simp [hvals2] at hv2
-        | cons v2 r2 =>
-          simp only [hvals2, List.head?_cons, Option.some.injEq] at hv2
-          simp [hv1, hv2]
+      rw [ho2] at g2
+      cases hvals2 : a2.values with
+      | nil => simp [hvals2] at hv2
+      | cons v2 r2 =>
+        simp only [hvals2, List.head?_cons, Option.some.injEq] at hv2
+        rw [hvals2] at g2
+        cases hct : contentTypeChecked inp.maxSdk with
+        | false =>
+          unfold verifyAttrs
+          simp only [hct, g2, hv2]
+          simp
           exact verifyWith_ok hok
+        | true =>
+          obtain ⟨a1, ha1, ho1, hv1⟩ := h1 hct
+          have g1 := dictGet_of_mem _ a1 ha1 hnd
+          rw [ho1] at g1
+          cases hvals1 : a1.values with
+          | nil => simp [hvals1] at hv1
+          | cons v1 r1 =>
+            simp only [hvals1, List.head?_cons, Option.some.injEq] at hv1
+            rw [hvals1] at g1
+            unfold verifyAttrs
+            simp only [hct, if_true, g1, g2, hv1, hv2]
+            exact verifyWith_ok hok
 
 /-! ### the loop over the SignerInfos -/
 
